@@ -148,6 +148,7 @@ CHECKS["C06"] = dict(
     rule="rapid-generated (store, queries) cases; non-trivial = some query has a non-empty candidate set that is a strict subset of the store and (a colliding foreign "
          "contract message, an expired message, or a continuation) is involved; distinct = distinct case value.",
     legs=[dict(name="inmemory", test="^TestQueryInMemory$", quick=dict(n=4000, procs=4, timeout=300), thorough=dict(n=120000, procs=10, timeout=2400)),
+          dict(name="big-store", test="^TestBigStore$", kind="plain", quick=dict(n=1, procs=1, timeout=300), thorough=dict(n=1, procs=1, timeout=300)),
           dict(name="disk", test="^TestQueryDisk$", quick=dict(n=1000, procs=2, timeout=300), thorough=dict(n=30000, procs=6, timeout=2400))],
 )
 
@@ -225,6 +226,23 @@ CHECKS["C19"] = dict(
           dict(name="ids-concurrent", test="^TestIDsDistinctConcurrent$", kind="plain", quick=dict(n=3, procs=1, timeout=300), thorough=dict(n=60, procs=2, timeout=1200)),
           dict(name="split", test="^TestSplit$", quick=dict(n=10000, procs=1, timeout=300), thorough=dict(n=1000000, procs=2, timeout=2400)),
           dict(name="peer", test="^TestPeerForwarding$", kind="plain", quick=dict(n=12, procs=2, timeout=300), thorough=dict(n=600, procs=6, timeout=2400))],
+)
+
+CHECKS["C07"] = dict(
+    level="exploration",
+    technique="end-to-end stateful property testing (rapid): generated publish / last-will / subscribe / re-subscribe histories against a broker with the in-memory "
+              "store; oracle: a list model of what must be stored and which packets must precede each SUBACK",
+    level_text="Histories of <=25 operations on 2-3 clients: publishes with/without retain flag, ttl option absent/0/5/3600/86400/2^32-2/negative/garbage, keys "
+               "with/without store permission, nested channels; last wills (retain or not, with/without store permission, ended by close or DISCONNECT); "
+               "subscribes and re-subscribes with keys with/without load permission, last absent/0/1/2/3/5/10^6/2^40, windows around now / far past / far future / "
+               "one-sided / out-of-range. Checked: the packets read before each SUBACK are exactly the last N stored matching messages inside the window (none "
+               "without load permission), nothing but live publishes afterwards, live fan-out unchanged, and at the end the store holds exactly the model "
+               "(once each, publisher's channel and contract, requested ttl, retain = configured retention).",
+    level_note="Trusted: paho client codec, barriers, reference matcher, a per-case namespace level so one broker/store serves many cases. Messages of one history "
+               "share a wall-clock second, so replay is compared as a multiset. Excluded: will topics with a ttl option and ttl >= 2^32-1 (statement ambiguous / wire type).",
+    rule="rapid-generated histories; non-trivial = a subscribe whose expected replay is non-empty and a strict subset of the stored messages; distinct = distinct case value.",
+    legs=[dict(name="retain-replay", test="^TestRetainReplay$", quick=dict(n=400, procs=4, timeout=300), thorough=dict(n=40000, procs=14, batch=2000, timeout=2400)),
+          dict(name="large-replay", test="^TestLargeReplay$", kind="plain", quick=dict(n=1, procs=1, timeout=300), thorough=dict(n=1, procs=1, timeout=300))],
 )
 
 for _k in CHECKS:
